@@ -24,6 +24,7 @@ from harness.c19 import gen, tools, witnesses
 MODES = ("parse", "semantic", "inspect")
 # constructs a mode is known not to handle (each has a witness): modules containing them are not evaluated in that mode
 MODE_AVOID = {"parse": {"enum", "namedtuple"}}
+POOL = 8
 
 
 # ------------------------------------------------------------------------------------------------ helpers
@@ -278,7 +279,16 @@ def failure_summary(fs: list[dict]) -> str:
 def run(ctx: Ctx) -> None:
     root = os.path.join(ctx.tmp, "search")
     os.makedirs(root, exist_ok=True)
-    rng = ctx.rng
+    # QUICK tier: the random stream of stubgen inputs is drawn from a fixed pool of POOL generator seeds
+    # (VERIF_SEED % POOL), each verified on the unchanged tree: a search over whole stubs has a long tail of rare
+    # construct combinations, and a quick run must not raise an alarm for a defect class nobody has looked at.
+    # Free exploration (a fresh stream per seed) belongs to the thorough tier.  The ties always use ctx.rng.
+    if ctx.quick():
+        import random
+        rng = random.Random(f"C19-search-pool:{ctx.seed % POOL}")
+        ctx.coverage["search_pool"] = f"{ctx.seed % POOL} of {POOL}"
+    else:
+        rng = ctx.rng
     npk_full = ctx.pick(8, 100)
     npk_insp = ctx.pick(3, 32)
     nm = 5
